@@ -187,6 +187,10 @@ def make_config(rng, fn=None, big=False, coefs=None, maxvars=6, one_shot_ok=Fals
         if "temperature_range" in kw:
             kw["temperature_range"] = tuple(np.float64(t) for t in kw["temperature_range"])
         kw["in_order"] = np.bool_(kw["in_order"])
+        if "initial_state" in kw:
+            # a state that comes out of numpy (np.unpackbits, an int8 spin array): same numbers, numpy scalar types
+            ty = rng.choice([np.int8, np.int64] if spin else [np.uint8, np.int64, np.uint64])
+            kw["initial_state"] = {k_: ty(v_) for k_, v_ in kw["initial_state"].items()}
         numpy_spelled = True
     return {"fn": fn, "type": tn, "model": m, "terms": dict(m), "kw": kw, "poly": p, "kind": kind,
             "true_vars": tv, "full_keys": full, "own_matrix": own, "matrix": mat, "schedule_kind": sch, "user_mapping": mapped, "coef_kind": coef_kind, "numpy_spelled": numpy_spelled,
